@@ -95,6 +95,16 @@ func main() {
 			cases = append(cases, mk("Enc", alg, n), mk("Mac", alg, n))
 		}
 	}
+	// very long messages: more than 256 keystream blocks (a block counter kept in one octet would wrap)
+	for _, n := range []int{4112, 8208, 16400} {
+		if *tier != "thorough" && n > 4112 {
+			continue
+		}
+		cases = append(cases, mk("Enc", 2, n))
+		if *tier == "thorough" {
+			cases = append(cases, mk("Enc", 1, n), mk("Mac", 1, n), mk("Mac", 2, n))
+		}
+	}
 	// repeat a slice of the cases later in a different order: results must not depend on call order
 	nrep := len(cases) / 8
 	for i := 0; i < nrep; i++ {
